@@ -454,7 +454,7 @@ SUBS = [
         pieces_quick=3),
     Sub("call_history", hist_case(), run_hist,
         "the same coherent dedispersion repeated 2..5 times in one process with exactly one ingredient changed per step (freq_align, DM, "
-        "reference, data, centre frequency, dtype, start time), each result checked against the exact filter; non-trivial = an alignment change "
+        "reference, data, centre frequency, dtype, start time, sample rate with the band), each result checked against the exact filter; half of the histories run on ONE signal object re-assigned through its setters / in-place ufuncs between the calls, the others on fresh signals; non-trivial = an alignment change "
         "on an even channel count", quick=300, thorough=6000, pieces_quick=4),
     Sub("long_signals", long_case(), lambda case, stt: (run_cdd(case, stt), stt.nt())[0],
         "N in {65537, 69633, 70001, 90000, 100003, 131073} (beyond 2^16, not smooth), one channel, exact per-bin transfer function; all "
